@@ -15,7 +15,7 @@ from ..cfg import Flow
 INIT = 'mindsdb_sql/__init__.py'
 
 
-def rewritten_value_tokens(lex):
+def rewritten_value_tokens(lex, src=None):
     """Token types whose lexer action assigns t.value (the stored value is no longer the source text)."""
     out = {}
     for r in lex.rules:
@@ -28,6 +28,23 @@ def rewritten_value_tokens(lex):
                 for t in tg:
                     if isinstance(t, ast.Attribute) and t.attr == 'value' and isinstance(t.value, ast.Name) and t.value.id == tparam:
                         out.setdefault(r.name, []).append(n)
+        if src is not None and r.name not in out:
+            # the action may hand the token to a helper that rewrites it: the action is interpreted on spellings of the token
+            from ..interp import Interp, Obj, Raised, Env
+            try:
+                words = [w for w in language(r.pattern, lex.reflags)[0] if w][:6]
+            except AnalysisError:
+                words = []
+            for w in words:
+                tok = Obj('Token', value=w, type=r.name, lineno=1, index=0, end=len(w))
+                try:
+                    res = Interp.for_file(src, lex.file, {}, {}).call_function(r.func, [Obj('Lexer', lineno=1, index=0), tok], {}, Env())
+                except (Raised, AnalysisError):
+                    continue
+                res = tok if res is None else res
+                if isinstance(res, Obj) and res.attrs.get('value') != w:
+                    out.setdefault(r.name, []).append(r.func)
+                    break
     return out
 
 
@@ -188,7 +205,7 @@ def run(ctx):
     check_verified(ctx, sm)
 
     # (5) caret width / echoed text --------------------------------------------------------------------------
-    M = rewritten_value_tokens(lex)
+    M = rewritten_value_tokens(lex, ctx.src)
     ctx.setcount('value_rewriting_tokens', len(M))
     el = None
     for m in sm.cls.body:
@@ -352,71 +369,72 @@ def check_verified(ctx, sm):
     """In make_suggestion every returned suggestion list is: empty, the single candidate, the end-of-input listing, or
     a list whose appends are each dominated by a successful self.query_is_valid(...) of this call."""
     fn = sm.fn
-    appends = [n for n in ast.walk(fn) if isinstance(n, ast.Call) and isinstance(n.func, ast.Attribute) and n.func.attr == 'append'
-               and norm(n.func.value) == 'suggestions']
-    ctx.need(appends, 'make_suggestion: no suggestions.append(...) found')
-    n_ok = 0
-    for a in appends:
-        guarded = False
-        single = False
-        p = getattr(a, '_parent', None)
-        while p is not None and p is not fn:
-            if isinstance(p, ast.If):
-                tst = norm(p.test)
-                inbody = any(a is x for b in p.body for x in ast.walk(b))
-                if inbody and 'query_is_valid(' in tst and not tst.startswith('not '):
-                    guarded = True
-                if inbody and tst == 'len(expected) == 1':
-                    single = True
-            p = getattr(p, '_parent', None)
-        ctx.ob('C19.suggestions-verified', f'append({norm(a.args[0])})@{"single" if single else "multi"}', guarded or single,
-               f'make_suggestion adds `{norm(a.args[0])}` to the suggestions without a successful re-parse of this input '
-               f'(self.query_is_valid) on that path', file=INIT, line=a.lineno)
-        n_ok += 1
-    # returns: only [] / suggestions / list(expected.keys()) under bad_token is None
-    for r in [n for n in walk_no_nested(fn) if isinstance(n, ast.Return)]:
-        v = norm(r.value) if r.value is not None else 'None'
-        ok = v in ('[]', 'suggestions') or (v == 'list(expected.keys())')
-        if v == 'list(expected.keys())':
-            p = getattr(r, '_parent', None)
-            ok = isinstance(p, ast.If) and norm(p.test) == 'self.bad_token is None'
-        ctx.ob('C19.suggestions-verified', f'return {v}'[:80], ok,
-               f'make_suggestion returns `{v}`: suggestions that were not derived from the expected tokens and re-parse of THIS '
-               f'input (e.g. a cache shared between calls) can name tokens the parser cannot accept here', file=INIT, line=r.lineno)
-    # the candidate re-parse uses this call's tokens
-    qv = [n for n in ast.walk(fn) if isinstance(n, ast.Call) and norm(n.func) == 'self.query_is_valid']
-    ctx.setcount('reparse_sites', len(qv))
-    for c in qv:
-        arg = c.args[0] if c.args else None
-        ok = False
-        if arg is not None:
-            # the argument, with local names expanded through their assignments (two levels), is built from this call's token list and a candidate
-            # token made inside the loop
-            def expand(e, depth=0):
-                texts = [norm(e)]
-                if depth < 3:
-                    for x in ast.walk(e):
-                        if isinstance(x, ast.Name):
-                            for n in ast.walk(fn):
-                                if isinstance(n, ast.Assign) and any(isinstance(t, ast.Name) and t.id == x.id for t in n.targets) and n.lineno <= c.lineno:
-                                    texts += expand(n.value, depth + 1)
-                return texts
-            texts = expand(arg)
-            mod2 = fn
-            while getattr(mod2, '_parent', None) is not None:
-                mod2 = mod2._parent
-            makers = {'Token'} | {h.name for h in ast.walk(mod2) if isinstance(h, ast.FunctionDef) and h is not fn
-                                  and any(isinstance(x, ast.Call) and (dotted(x.func) or '').split('.')[-1] == 'Token' for x in ast.walk(h))}
-            made = {t.id for n in ast.walk(fn) if isinstance(n, ast.Assign) and isinstance(n.value, ast.Call) for t in n.targets if isinstance(t, ast.Name)
-                    and ((dotted(n.value.func) or '').split('.')[-1] in makers or (isinstance(n.value.func, ast.Attribute) and n.value.func.attr in makers))}
-            names_in_arg = {x.id for t_ in [arg] for x in ast.walk(t_) if isinstance(x, ast.Name)}
-            for n in ast.walk(fn):
-                if isinstance(n, ast.Assign) and any(isinstance(t, ast.Name) and t.id in names_in_arg for t in n.targets):
-                    names_in_arg |= {x.id for x in ast.walk(n.value) if isinstance(x, ast.Name)}
-            ok = any('self.tokens' in t for t in texts) and bool(made & names_in_arg)
-        ctx.ob('C19.suggestions-verified', f'query_is_valid({norm(arg) if arg is not None else ""})@{c.lineno - fn.lineno}', ok,
-               'the re-parse that verifies a suggestion is not run on this call\'s token list with the candidate inserted',
-               file=INIT, line=c.lineno)
+    import itertools
+    from ..interp import Interp, Obj, Raised, Env
+    # make_suggestion interpreted end to end on a small lexer stand-in: k keyword candidates, the error in the middle of the input or at its end, and a re-parse
+    # (self.query_is_valid) that accepts a chosen subset of the candidates.  Every returned suggestion must be the single candidate, part of the end-of-input
+    # listing, or a candidate whose re-parse - of THIS call's tokens with the candidate put in - succeeded.
+    nrows = 0
+    anchor = False
+    ALPHA = 'ABCDEFGHIJKLMNOPQRSTUVWXYZ'
+
+    def one_call(it, k, where, accept, round_=0):
+        """-> (label, result list or exception name, calls, names, at_end)"""
+        names = [f'KW{ALPHA[i]}' if i % 3 else f'KW_{ALPHA[i]}' for i in range(k)]
+        lexer = Obj('Lexer', **{n_: n_.lower() for n_ in names})
+        toks = [Obj('Token', type=f'T{i}', value=f'v{i}', index=i * 3, end=i * 3 + 2, lineno=1, _round=round_) for i in range(4)]
+        bad = {'end': None, 'first': toks[0], 'middle': toks[2], 'last': toks[3]}[where]
+        accepted = {'none': set(), 'first': set(names[:1]), 'all': set(names), 'odd': set(names[1::2])}[accept]
+        calls = []
+
+        def valid(it_, tokens2):
+            own = [t for t in tokens2 if any(t is o for o in toks)]
+            cand = [t for t in tokens2 if not any(t is o for o in toks)]
+            okc = len(cand) == 1 and isinstance(cand[0], Obj) and len(own) >= len(toks) - 1
+            calls.append((cand[0].attrs.get('type') if okc else None, okc))
+            return bool(okc and cand[0].attrs.get('type') in accepted)
+        it.stubs['self.query_is_valid'] = valid
+        self_ = Obj('ErrorHandling', lexer=lexer, parser=Obj('Parser'), tokens=list(toks), bad_token=bad, expected_tokens=list(names))
+        try:
+            res = it.call_function(fn, [self_], {}, Env())
+            res = list(res) if isinstance(res, (list, tuple)) else [res]
+        except Raised as r:
+            res = f'<{r.exc_name}>'
+        return res, calls, names, accepted
+
+    def judge(label, k, where, res, calls, names, accepted):
+        nonlocal anchor
+        if isinstance(res, str):
+            ctx.ob('C19.suggestions-verified', label, False, f'make_suggestion raises {res} [{label}]', file=INIT, line=fn.lineno)
+            return
+        verified = {n_.lower() for n_, okc in calls if okc and n_ in accepted}
+        foreign_calls = [c for c in calls if not c[1]]
+        unverified = [s_ for s_ in res if not (k == 1 or where == 'end' or s_ in verified)]
+        unknown = [s_ for s_ in res if s_ not in {n_.lower() for n_ in names}]
+        ctx.ob('C19.suggestions-verified', label, not unverified and not unknown and not foreign_calls,
+               f'[{label}] make_suggestion returns {res}: {unverified or unknown} '
+               + ('was not confirmed by a successful re-parse of this input with the candidate put in' if unverified else
+                  ('is not one of the expected tokens' if unknown else 'the re-parse is not run on this call\'s token list with one candidate inserted'))
+               + ' (only the single candidate and the end-of-input listing may be shown unverified)', file=INIT, line=fn.lineno)
+        if 1 < k < 20 and where == 'middle' and accepted == set(names) and len(res) == k:
+            anchor = True
+    for k, where, accept in itertools.product((0, 1, 2, 5, 19, 25), ('end', 'first', 'middle', 'last'), ('none', 'first', 'all', 'odd')):
+        it = Interp.for_file(ctx.src, INIT, {}, {'Token': lambda it_: Obj('Token')})
+        label = f'{k} candidates, error at {where}, re-parse accepts {accept}'
+        res, calls, names, accepted = one_call(it, k, where, accept)
+        nrows += 1
+        judge(label, k, where, res, calls, names, accepted)
+    # histories: the same situation (same expected tokens, same kind of offending token) met twice in one process, the re-parse accepting everything the first
+    # time and nothing the second time (another query): what the first call verified says nothing about the second input
+    for k, where in itertools.product((2, 5), ('middle', 'first')):
+        it = Interp.for_file(ctx.src, INIT, {}, {'Token': lambda it_: Obj('Token')})
+        one_call(it, k, where, 'all', 0)
+        res, calls, names, accepted = one_call(it, k, where, 'none', 1)
+        nrows += 1
+        judge(f'{k} candidates, error at {where}: second call after a call whose re-parse accepted all', k, where, res, calls, names, accepted)
+    ctx.ob('C19.suggestions-verified', 'anchor:verified-candidates-are-returned', anchor,
+           'make_suggestion never returns the candidates its re-parse accepted (the table above would be vacuous)', file=INIT, line=fn.lineno)
+    ctx.setcount('reparse_sites', nrows)
 
 
 def _can_match_newline(pattern, flags):
